@@ -346,6 +346,16 @@ Proof.
   intros He Hu Hm Hin. rewrite (mirror_mem_keyed kf rows m k He Hu Hin) in Hm. discriminate.
 Qed.
 
+(** a validated, collision-free plan leaves the key unique in the final table *)
+Lemma plan_good_final kf : forall ups rows,
+  plan_ok rows ups -> plan_good kf rows ups -> uniq_on kf (apply_ups ups rows).
+Proof.
+  induction ups as [|[[i old] new] ups IH]; intros rows Hp Hg; [apply Hg|].
+  destruct (plan_ok_step _ _ _ _ _ Hp) as [Hold Hp'].
+  destruct (plan_good_step kf rows i old new ups Hold Hg) as [_ Hg'].
+  rewrite apply_ups_cons. cbn [fst snd]. apply IH; assumption.
+Qed.
+
 (* ------------------------------------------------------------------------------------ *)
 (** * UPDATE *)
 
@@ -402,6 +412,22 @@ Proof.
         inversion Hk; subst k. eapply fresh_of_not_mem; eauto.
       + left. unfold uq_kf. rewrite He'. reflexivity.
     - rewrite existsb_exists_false in Hk2. apply has_dup_NoDup. apply Hk2. exact Hin. }
+  assert (Gui : Forall (fun u => ui_unique u = true -> plan_good (uq_kf (ui_cols u)) (t_rows t) ups) (t_uidx t)).
+  { apply Forall_forall. intros u Hin Hq. rewrite Forall_forall in Hui. split; [apply Hui; assumption|]. split.
+    - intros u' Hu'. destruct (E3 u' Hu') as [_ Ev]. unfold upd_validate in Ev.
+      repeat (apply andb_true_iff in Ev; destruct Ev as [Ev ?]).
+      unfold upd_uidx_ok in H. rewrite forallb_forall in H. specialize (H u Hin). rewrite Hq in H. cbn in H.
+      unfold ui_key in H. apply orb_true_iff in H. destruct H as [H|H].
+      + apply orb_true_iff in H. destruct H as [H|H].
+        * right. intros k Hk. unfold uq_kf in Hk. rewrite H in Hk. discriminate.
+        * left. apply key_eqb_eq in H. unfold uq_kf. rewrite H. reflexivity.
+      + right. intros k Hk Hin'. unfold uq_kf in Hk.
+        destruct (has_null (proj (ui_cols u) (u_new u'))); [discriminate|]. inversion Hk; subst k.
+        apply negb_true_iff in H. apply In_somes in Hin'. destruct Hin' as [j Hj]. apply uq_keyed_ui in Hj.
+        unfold user_mirror in Hu. rewrite Forall_forall in Hu. specialize (Hu u Hin). apply ui_mirror_spec in Hu.
+        eapply ui_spec_not_mem; eauto.
+    - rewrite existsb_exists_false in Hk3. specialize (Hk3 u Hin). rewrite Hq in Hk3. cbn in Hk3.
+      apply has_dup_NoDup. exact Hk3. }
   destruct (upd_apply_rows_inv (map fst asg) ups t Hwf (conj Hhp Hhu) Hnn Hck Hplan Gpk Guq Hnews)
     as [t1 [F1 [F2 [F3 [F4 [F5 [F6 [F7 [F8 [F9 F10]]]]]]]]]].
   rewrite F1 in Hd. inversion Hd; subst t' res; clear Hd.
@@ -409,8 +435,8 @@ Proof.
   - destruct F5 as [G1 G2]. split; simp_tab; assumption.
   - unfold constraints_hold. simp_tab. rewrite F3, F4, upd_apply_uidx_map. repeat split; auto.
     rewrite Forall_forall. intros u' Hin Hq. apply in_map_iff in Hin. destruct Hin as [u [<- Hin]].
-    cbn in *. rewrite F2. apply uniq_on_NoDup. apply has_dup_NoDup.
-    rewrite existsb_exists_false in Hk3. specialize (Hk3 u Hin). rewrite Hq in Hk3. exact Hk3.
+    cbn in *. rewrite F2. apply plan_good_final; [exact Hplan|].
+    rewrite Forall_forall in Gui. apply Gui; assumption.
   - destruct F6 as [G1 G2]. split; simp_tab; assumption.
   - unfold user_mirror in *. simp_tab. rewrite F4, upd_apply_uidx_map, F2.
     rewrite Forall_forall in *. intros u' Hin. apply in_map_iff in Hin. destruct Hin as [u [<- Hin]].
